@@ -12,7 +12,7 @@ use crate::util::*;
 use std::collections::BTreeMap;
 use vm_memory::mmap::{MmapRange, MmapRegionError};
 use vm_memory::verif_hooks::{xen_fail_next, xen_fail_pending, xen_log_take};
-use vm_memory::{FileOffset, GuestAddress, MmapRegion};
+use vm_memory::{FileOffset, GuestAddress, GuestRegionMmap, MmapRegion};
 
 fn err_name(e: &MmapRegionError) -> String {
     match e {
@@ -58,8 +58,22 @@ fn covered(text: &str, addr: usize) -> bool {
     })
 }
 
+/// what a successful request leaves alive: the mapping itself, or the guest region built around it
+enum Held {
+    Map(MmapRegion<()>),
+    Guest(GuestRegionMmap<()>),
+}
+impl Held {
+    fn m(&self) -> &MmapRegion<()> {
+        match self {
+            Held::Map(m) => m,
+            Held::Guest(g) => g,
+        }
+    }
+}
+
 struct Live {
-    region: MmapRegion<()>,
+    region: Held,
     anon_addr: Option<usize>,
 }
 
@@ -156,7 +170,19 @@ impl XBuildWorld {
         if inject {
             xen_fail_next();
         }
-        let res = MmapRegion::<()>::from_range(range);
+        // `greg=<guest base>`: the mapping is handed on to `GuestRegionMmap::new`, which refuses it (and drops it) when
+        // guest base + size does not fit the address space
+        let greg = opt("greg");
+        let res: Result<Held, String> = match MmapRegion::<()>::from_range(range) {
+            Err(e) => Err(err_name(&e)),
+            Ok(m) => match greg {
+                None => Ok(Held::Map(m)),
+                Some(g) => match GuestRegionMmap::new(m, GuestAddress(g)) {
+                    Ok(gr) => Ok(Held::Guest(gr)),
+                    Err(_) => Err("err invalidregion".into()),
+                },
+            },
+        };
         // was the injected failure consumed?  (if not, no ioctl was reached)
         let consumed = inject && !xen_fail_pending();
         if inject && !consumed {
@@ -178,8 +204,11 @@ impl XBuildWorld {
         } else {
             "kernel".into()
         };
-        let got = match &res { Ok(_) => "ok".to_string(), Err(e) => err_name(e) };
-        let consistent = if want == "kernel" { got == "ok" || got == "err mmap" } else { want == got };
+        let got = match &res { Ok(_) => "ok".to_string(), Err(e) => e.clone() };
+        let overflow = greg.map(|g| g as u128 + size as u128 >= 1u128 << 64).unwrap_or(false);
+        let consistent = if want == "kernel" { (got == "ok" && !overflow) || got == "err mmap" || (got == "err invalidregion" && overflow) } else { want == got };
+        // for the kernel's replies below: the mapping itself was built when the guest region was refused
+        let built = res.is_ok() || got == "err invalidregion";
         if !consistent {
             rec.fail("C15", &format!("x.new/accept/{}", want.split(' ').take(2).collect::<Vec<_>>().join("-")), &format!("{} -> {}", line, got));
         }
@@ -191,17 +220,18 @@ impl XBuildWorld {
             vec![]
         } else if w == 1 {
             // foreign: mmap, then privcmd ioctl
-            if res.is_ok() { vec![1, 1] } else if consumed { vec![1, 0] } else { vec![0] }
+            if built { vec![1, 1] } else if consumed { vec![1, 0] } else { vec![0] }
         } else if w == 2 {
             // grant mapped in advance: map ioctl, then mmap
-            if res.is_ok() { vec![1, 1] } else if consumed { vec![0] } else { vec![1, 0] }
+            if built { vec![1, 1] } else if consumed { vec![0] } else { vec![1, 0] }
         } else if w == 0xa {
             vec![]
-        } else if res.is_ok() { vec![1] } else { vec![0] };
+        } else if built { vec![1] } else { vec![0] };
         let sc_s = sc.iter().map(|b| b.to_string()).collect::<Vec<_>>().join(",");
 
         let out = match res {
-            Ok(r) => {
+            Ok(held) => {
+                let r = held.m();
                 let fs = r.file_offset().map(|f| f.start());
                 if r.size() != size || r.prot() != prot.unwrap_or(libc::PROT_READ | libc::PROT_WRITE) || r.flags() != eff_flags || fs != flen.map(|_| fstart)
                     || r.xen_mmap_flags() != w || r.xen_mmap_data() != data {
@@ -209,26 +239,26 @@ impl XBuildWorld {
                 }
                 let anon_addr = if flen.is_none() && !r.as_ptr().is_null() { Some(r.as_ptr() as usize) } else { None };
                 let s = format!("ok size={} prot={} flags={} fstart={} xf={} xd={}", r.size(), r.prot(), r.flags(), fs.map(|x| x.to_string()).unwrap_or("none".into()), r.xen_mmap_flags(), r.xen_mmap_data());
-                self.regs.insert(id, Live { region: r, anon_addr });
+                self.regs.insert(id, Live { region: held, anon_addr });
                 format!("{} {}", s, self.fmt_state())
             }
             Err(e) => {
                 let after_text = maps_text();
                 if file_maps(&after_text) != before_files || after_text.lines().count() != before_lines {
-                    rec.fail("C15", "x.new/failed-build-left-mapping", &format!("{} -> {}", line, err_name(&e)));
+                    rec.fail("C15", "x.new/failed-build-left-mapping", &format!("{} -> {}", line, e));
                 }
                 let mut g = self.grants.clone();
                 g.sort();
-                let obs = format!("{} {}", err_name(&e), self.fmt_state());
+                let obs = format!("{} {}", e, self.fmt_state());
                 if g != before_grants {
-                    rec.fail("C15", "x.new/failed-build-left-grant-mapping", &format!("{} -> {} grants {:?} -> {:?}", line, err_name(&e), before_grants, g));
+                    rec.fail("C15", "x.new/failed-build-left-grant-mapping", &format!("{} -> {} grants {:?} -> {:?}", line, e, before_grants, g));
                     // reported once, here: later drops are judged against what the live regions own
                     self.grants = before_grants.clone();
                 }
                 obs
             }
         };
-        let _ = &self.regs.get(&id).map(|l| &l.region);
+        let _ = self.regs.get(&id).map(|l| l.region.m().size());
         (out, sc_s)
     }
 }
@@ -300,7 +330,11 @@ pub fn run(rec: &mut Rec, rng: &mut Rng, n: usize) {
         let fail = rng.chance(1, 6) as u8;
         let id = next_id;
         next_id += 1;
-        let line = format!("x.new id={} size={} flen={} fstart={} prot={} flags={} w={} data={} base={} fail={} page=4096", id, size, flen, fstart, prot, flags, xw, rng.below(9), base, fail);
+        // a quarter of the requests go on to `GuestRegionMmap::new`, half of those with a guest base next to 2^64
+        let greg = if rng.chance(1, 4) {
+            (if rng.chance(1, 2) { (u64::MAX - size).wrapping_add(rng.below(4)).wrapping_sub(1) } else { base & !(1u64 << 63) }).to_string()
+        } else { "none".to_string() };
+        let line = format!("x.new id={} size={} flen={} fstart={} prot={} flags={} w={} data={} base={} fail={} page=4096 greg={}", id, size, flen, fstart, prot, flags, xw, rng.below(9), base, fail, greg);
         let before = rec.outs.len();
         go(&mut w, rec, line, true);
         if rec.outs[before].starts_with("ok") {
